@@ -315,6 +315,31 @@ func runC09(c *eng.Ctx) {
 		}
 	})
 
+	// ---- a bucket enters the cache only while the snapshot it was loaded from is still the store's current snapshot ------------------
+	c.Rule("GOC", kvsT+"{bucket cached only from the current snapshot}", func() {
+		n := 0
+		for _, fn := range p.AllFuncs {
+			if !strings.HasPrefix(p.FuncKey(fn), kvsT+".") {
+				continue
+			}
+			for _, a := range p.SitesDirect(fn, invokeOn(".bucketCache", "Add")) {
+				n++
+				ls := p.Locks(fn, nil)
+				facts := p.MustFacts(fn)
+				held := ls.At(a.Instr).HasField(kvsMu, false)
+				fs := facts.At(a.Instr)
+				cur := facts.Find(fs, "eq", func(_ string, v ssa.Value) bool {
+					in, ok := eng.Unwrap(v).(ssa.Instruction)
+					return ok && eng.LoadField(kvsT+".snapshot")(p, in)
+				}, func(d string, _ ssa.Value) bool { return strings.Contains(d, "napshot") })
+				c.Check(held && len(cur) > 0, fmt.Sprintf("cached-under-lock-from-current-snapshot:%s[%d]", p.FuncKey(fn), n), a.Instr, fn,
+					"a bucket read from a snapshot is added to bucketCache only in a hold of the store lock in which that snapshot was compared equal to s.snapshot: Flush installs the new snapshot and purges the cache in one write hold, so a bucket of the OLD snapshot added after the purge would answer later lookups for names the flush moved to disk with 'absent' — and they are created a second time",
+					fmt.Sprintf("store lock held: %v; facts: %s", held, strings.Join(facts.Render(fs), " ; ")))
+			}
+		}
+		c.Check(n > 0, "cache-fill-found", nil, nil, "the dictionary store fills its bucket cache", "")
+	})
+
 	// ---- a registered series id is always completed (sequence advanced, postings written): nothing can fail in between ---------------
 	c.Rule("ERRFLOW", midT+".GenSeriesID{no failing exit after the id was registered}", func() {
 		f := c.Fn(midT + ".GenSeriesID")
